@@ -161,6 +161,43 @@ func (c01) AfterOp(x *Exec, task, idx int, op Op, out Outcome) {
 		x.fail("model-mismatch:"+mismatchSite(op, why), fmt.Sprintf("after %s: %s (model before the call: %s)", op, why, before.S[op.Obj].key()))
 		return
 	}
+	// which fault events of the history actually fired
+	if b, a := before.S[op.Obj], st.m.S[op.Obj]; b != nil && a != nil && task >= 0 {
+		switch op.M {
+		case "Push":
+			if len(a.Elems)-len(b.Elems) < len(op.Args) {
+				x.fault("capacity-exhausted-by-Push")
+			}
+			for _, v := range op.Args {
+				if v.K == "nil" {
+					x.fault("nil-pushed")
+					break
+				}
+			}
+		case "Insert":
+			if len(a.Elems) == len(b.Elems) {
+				x.fault("capacity-refused-Insert")
+			}
+		case "Reset":
+			for _, e := range b.Elems {
+				if e.Nil {
+					x.fault("reset-over-nil-elements")
+					break
+				}
+			}
+			x.fault("reset")
+		case "SetFIFO":
+			if a.Fifo && !b.Fifo {
+				x.fault("fifo-latched")
+			} else if b.Fifo && len(op.Args) > 0 && op.Args[0].I == 0 {
+				x.fault("fifo-unlatch-refused")
+			}
+		case "Pop":
+			if b.Fifo && len(b.Elems) > 0 {
+				x.probe("fifo-pop")
+			}
+		}
+	}
 	histShape(x, st, op, before)
 }
 
